@@ -5,6 +5,7 @@ CONSTANTS
   Bundles <- TlsBundles
   Ctxs <- Wide
   Reqs <- FullReq
+  Calls <- OneCall
   Tries <- One
   Hists <- NoHist
   BackoffCfgs <- NoBoCfgs
